@@ -314,8 +314,9 @@ def pred(case, r):
     if str(r.get("out", "")).startswith("err"):
         exp = expected_error(case)
         if exp is None:
-            fails.append(("roundtrip-raises-" + r["out"].split(":")[-1] if r["out"].startswith("err:other") else "roundtrip-raises-" + {"err:lib": "XGIError", "err:type": "TypeError", "err:value": "ValueError"}[r["out"]],
-                          f"{f} on a {a['cls']} network raised {r['out']}: {r.get('msg', '')}"))
+            name = r["out"].split(":")[-1] if r["out"].startswith("err:other") else \
+                {"err:lib": "XGIError", "err:type": "TypeError", "err:value": "ValueError"}[r["out"]]
+            fails.append(("raises-" + name, f"{f} on a {a['cls']} network raised {r.get('msg', r['out'])}"))
         return fails
     s, t = a, r["rt"]
     src_inc = inc_of(s)
